@@ -801,8 +801,12 @@ class TypeBlocks(ContainerOperand):
         elif axis == 1:
             # axis 1 means we return column groups; key is a row key
             group_source = self._extract_array(row_key=key)
-            if group_source.ndim > 1 and group_source.shape[0] > 1:
-                unique_axis = 1
+            if group_source.ndim > 1:
+                if group_source.shape[0] > 1:
+                    unique_axis = 1
+                else:
+                    # a single row: NumPy 2 returns the inverse of np.unique with the shape of its input, so present the row as 1D
+                    group_source = group_source.reshape(group_source.shape[1])
         else:
             raise AxisInvalid(f'invalid axis: {axis}')
 
